@@ -426,3 +426,32 @@ def r_viz_indexing(ctx):
                         root = F.bodies.get(b.root, b) if b.kind == 'closure' else b
                         ctx.check(root.fn_name in ('_clear', 'new', 'default'), 'R20.a', '%s/vectors-shrink-in-clear-only/%s' % (tag, short(root)), b, b.loc(bb),
                                   'nodes / edges / edgelists shrink in _clear only', '%s shrinks %s (%s): ids handed out earlier may index out of bounds' % (root.fn_name, M.show(rcv), last))
+
+
+def r_viz_escaping(ctx):
+    """R20.e — well-formedness, user text: the Debug / Display rendering of a value of the user's state type (any type that mentions a
+    generic type parameter) reaches the String returned by as_graphviz only through an escaping of the double quote and of the
+    backslash (the label is written between double quotes; a bare quote ends the DOT string, a backslash in front of the closing quote
+    swallows it). Decided by a forward taint analysis (taint.py) from the formatting sites to the return of as_graphviz, through every
+    crate-local callee."""
+    from ..taint import Taint
+    F = ctx.F
+    for tag, adt in DIAGRAMS:
+        g = ctx.body(adt, 'as_graphviz')
+        T = Taint(F)
+        w = T.summary(g)
+        for n in T.bodies:
+            ctx.analysed_bodies.add(n)
+        if not ctx.floor('R20.e', tag + '/user-text-sources', g, len(T.sources), 1, 'formatting site(s) of user state text reachable from as_graphviz'):
+            continue
+        ctx.stats['call_sites'] += len(T.sources)
+        why = ''
+        if w:
+            bits = w[0]
+            why = ('the quote is escaped with a backslash although the backslashes of the text were not doubled first (an existing `\\"` becomes `\\\\"`, which ends the string)' if 'X' in bits else
+                   ' and '.join(x for x in (('a bare double quote' if 'Q' in bits else ''), ('a bare backslash' if 'B' in bits else '')) if x) + ' can reach the output')
+        ctx.check(w is None, 'R20.e', tag + '/user-text-is-escaped', g, g.loc(0),
+                  'user text (%d formatting site(s): %s) reaches the DOT output only through an escaping of `"` and `\\` (%d functions followed)' % (
+                      len(T.sources), ', '.join(sorted(x[1] for x in T.sources))[:120], len(T.bodies)),
+                  'user text (%s) flows into the String returned by as_graphviz unescaped: %s — a state whose Debug form contains a double quote (any String / &str field) '
+                  'yields a DOT file that is not well formed' % (w[1] if w else '-', why))
